@@ -367,6 +367,12 @@ fn w_faults(ctx: &mut Ctx) {
                     Ok(Err(_)) => ctx.bump("fault_outcome_err"),
                     Ok(Ok(mut solver)) => {
                         ctx.bump("fault_outcome_ok");
+                        // whatever is accepted must at least be ONE well-formed JSON document from the first byte
+                        // to the last (an independent strict parse by the harness): a loader that stops reading
+                        // at the first complete value takes "{...}garbage" for a valid file
+                        if serde_json::from_slice::<serde_json::Value>(&data).is_err() {
+                            ctx.violation("accepted_file_that_is_not_valid_json", "accepted_file_that_is_not_valid_json", wl, case, json!({"file_index": fi, "offset": off, "edit": kind, "corrupted_file": String::from_utf8_lossy(&data)}));
+                        }
                         // an accepted file must give a well-formed solver: a short solve must not panic either
                         if rng.bool(0.02) {
                             solver.settings.max_iter = 3;
